@@ -3,7 +3,6 @@ package props
 import (
 	stdjson "encoding/json"
 	"fmt"
-	"regexp"
 	"strings"
 	"time"
 	"unicode/utf8"
@@ -16,7 +15,6 @@ import (
 	"github.com/evanphx/json-patch/v5/verifharness/refenc"
 )
 
-var htmlEscapeRe = regexp.MustCompile(`(?i)\\u00(3c|3e|26)`)
 
 // rawHTML returns the first raw <, >, &, U+2028 or U+2029 in b, if any.
 func rawHTML(b []byte) string {
@@ -28,6 +26,25 @@ func rawHTML(b []byte) string {
 	}
 	if strings.Contains(string(b), "\xe2\x80\xa9") {
 		return "U+2029"
+	}
+	return ""
+}
+
+// findHTMLEscape returns the first \u003c / \u003e / \u0026 escape of a JSON text. A backslash
+// that is itself escaped does not start one: the string `\u003c` (a backslash and five more characters) is
+// spelled "\\u003c".
+func findHTMLEscape(out []byte) string {
+	for i := 0; i+1 < len(out); i++ {
+		if out[i] != '\\' {
+			continue
+		}
+		if out[i+1] == 'u' && i+6 <= len(out) {
+			switch strings.ToLower(string(out[i+2 : i+6])) {
+			case "003c", "003e", "0026": // (U+2028/9 are escaped whatever the switch says, as in encoding/json)
+				return string(out[i : i+6])
+			}
+		}
+		i++ // the escaped character
 	}
 	return ""
 }
@@ -184,7 +201,7 @@ func init() {
 					}
 					return
 				}
-				if m := htmlEscapeRe.FindString(string(rOff.Out)); m != "" {
+				if m := findHTMLEscape(rOff.Out); m != "" {
 					d["escape"] = m
 					c.Violation("escape-off:patch-introduces-html-escape", d)
 					return
@@ -356,6 +373,48 @@ func init() {
 				if c.WantSample() {
 					c.Sample(d)
 				}
+			}},
+			{Name: "indentation-of-deep-documents", Exhaustive: true, Count: func(core.Tier) int { return len(deepDepths) * 2 }, Run: func(c *core.Ctx, idx int) {
+				d := deepDepths[idx/2]
+				if d > 2600 {
+					return // (the output is depth x depth x len(indent) bytes)
+				}
+				doc := deepWrap(d, `{"k":[1,{"m":"a<b"}],"n":null,"e":{},"l":[]}`)
+				if idx%2 == 1 {
+					doc = `{"r":` + strings.Repeat("[", d) + `1,{"x":[]}` + strings.Repeat("]", d) + `}`
+				}
+				ind := indents[(idx/2)%len(indents)]
+				o := V5Opts{NegIdx: true, EscapeHTML: idx%4 < 2}
+				patch := `[{"op":"add","path":"/zz","value":{"p":[1,2]}}]`
+				res := ApplyV5(doc, patch, o, "")
+				ri := ApplyV5(doc, patch, o, ind)
+				c.Eval(2)
+				dd := map[string]any{"doc": clip(doc, 300), "depth": d, "indent": ind, "options": o.String(), "apply_error": errText(res.Err), "indent_error": errText(ri.Err)}
+				if res.Panic != nil || ri.Panic != nil {
+					pn := res.Panic
+					if pn == nil {
+						pn = ri.Panic
+					}
+					dd["panic"] = panicDetail(pn)
+					c.Violation(pn.Sig(), dd)
+					return
+				}
+				if res.Err != nil || ri.Err != nil {
+					c.Violation("Apply-or-ApplyIndent-fails-on-a-deep-document", dd)
+					return
+				}
+				if wantI := refenc.Indent(string(res.Out), ind); string(ri.Out) != wantI {
+					i := 0
+					for i < len(wantI) && i < len(ri.Out) && wantI[i] == ri.Out[i] {
+						i++
+					}
+					dd["first_difference_at_byte"] = i
+					dd["library_there"], dd["reference_there"] = clip(string(ri.Out[i:]), 120), clip(wantI[i:], 120)
+					c.Violation("ApplyIndent-differs-from-reindented-Apply", dd)
+					return
+				}
+				c.Count("indent:ok")
+				c.Count("deep-indent:cases")
 			}},
 			{Name: "colliding-and-duplicate-names", Count: n(20000, 500000), Run: func(c *core.Ctx, idx int) {
 				// member names that are different texts but the same name once decoded (two lone surrogate escapes both
